@@ -326,7 +326,7 @@ class SgzConverter(SgzReader):
             # segyio will warn us that out padded cube is not contiguous. This is expected, and safe.
             warnings.filterwarnings("ignore", message="Implicit conversion to contiguous array")
             with segyio.create(out_file, spec) as segyfile:
-                self.read_variant_headers()
+                self.read_variant_headers(include_padding=bool(self.include_padding))
                 # Doing this is fine now there is decent caching on the loader
                 segyfile.trace = [self.get_trace(i) for i in range(self.tracecount)]
                 segyfile.header = [self.regenerate_trace_header(i) for i in range(self.tracecount)]
